@@ -149,7 +149,7 @@ def ensure(config, log=sys.stderr):
         lock.close()
 
 
-def _gc(keep=6):
+def _gc(keep=16):
     """Keep only the most recent fact directories."""
     root = os.path.join(CACHE, "facts")
     try:
